@@ -540,7 +540,7 @@ TRANSPARENT = [
     r"^std::result::Result::<T, E>::ok$", r"^std::result::Result::<T, E>::map_err$",
     r"^std::result::Result::<T, E>::as_ref$", r"^std::result::Result::<T, E>::as_mut$",
     r"^std::ops::Try::branch$", r"^std::ops::FromResidual::from_residual$",
-    r"^std::future::IntoFuture::into_future$", r"^std::pin::Pin::<Ptr>::new_unchecked$",
+    r"^std::future::IntoFuture>?::into_future$", r"^std::pin::Pin::<Ptr>::new_unchecked$",
     r"^std::pin::Pin::<Ptr>::new$", r"^std::pin::Pin::<Ptr>::as_mut$",
     r"^std::iter::IntoIterator::into_iter$",
     r"^std::boxed::Box::<T>::new$", r"^std::sync::Arc::<T>::new$",
@@ -583,6 +583,38 @@ class Producer:
 
     def __repr__(self):
         return f"P({self.name()}@{self.body.path.split('::')[-1]}:{self.block})"
+
+
+def _captured_operand_local(body, l, idx, depth=0):
+    """local captured as operand `idx` of the closure / coroutine aggregate that local `l` holds (through plain copies, references and the
+    Pin::new_unchecked(&mut into_future(..)) wrappers of an `.await`), or None"""
+    seen = set()
+    while l is not None and l not in seen and depth < 12:
+        seen.add(l)
+        depth += 1
+        ds = [d for d in body.defs().get(l, []) if d[2] != "yield"]
+        if len(ds) != 1:
+            return None
+        d = ds[0]
+        if d[2] == "assign" and not d[3]["pl"]["p"]:
+            rv = d[3]["rv"]
+            if rv["k"] == "agg" and rv.get("agg") in ("closure", "coroutine") and idx < len(rv["ops"]):
+                pl = op_place(rv["ops"][idx])
+                return pl["l"] if pl is not None and not pl["p"] else None
+            if rv["k"] in ("use", "cast"):
+                pl = op_place(rv["o"])
+                l = pl["l"] if pl is not None and not pl["p"] else None
+                continue
+            if rv["k"] in ("ref", "rawptr") and not [e for e in rv["pl"]["p"] if e[0] != "d"]:
+                l = rv["pl"]["l"]
+                continue
+            return None
+        if d[2] == "call" and re.search(r"Pin::<Ptr>::(new_unchecked|new|as_mut)$|IntoFuture>?::into_future$|DerefMut>?::deref_mut$", d[3].get("callee") or "") and d[3]["args"]:
+            pl = op_place(d[3]["args"][0])
+            l = pl["l"] if pl is not None and not pl["p"] else None
+            continue
+        return None
+    return None
 
 
 def slice_back(prog, body, start_local, transparent_extra=(), through_fields=True, max_steps=4000,
@@ -649,6 +681,13 @@ def slice_back(prog, body, start_local, transparent_extra=(), through_fields=Tru
                         f = _first_field(pl)
                         if f is not None:
                             _follow_upvar(prog, bd, f, work, producers)
+                            continue
+                    # a field of an inlined closure / awaited async helper's future: only the captured operand it names
+                    f = _first_field(pl)
+                    if f is not None and len([e for e in pl["p"] if e[0] == "f"]) == 1:
+                        cap = _captured_operand_local(bd, ol, f)
+                        if cap is not None:
+                            work.append((bd, cap))
                             continue
                     work.append((bd, ol))
                 else:
@@ -1134,6 +1173,23 @@ def describe(prog, body, x, depth=0, seen=None):
     return _describe_place(prog, body, {"l": x, "p": []}, depth, seen)
 
 
+def _pinned_closure(d, n=0):
+    """the closure / coroutine value under Pin::new_unchecked(&mut into_future(..)) wrappers, or None"""
+    while isinstance(d, tuple) and d and n < 6:
+        if d[0] == "closure":
+            return d if len(d) > 2 else None
+        if d[0] == "call" and re.search(r"Pin::<Ptr>::new_unchecked$|IntoFuture>?::into_future$|Pin::<Ptr>::as_mut$|Pin::<Ptr>::new$|DerefMut::deref_mut$|Deref::deref$", d[1]) and d[2]:
+            d = d[2][0]
+            n += 1
+            continue
+        if d[0] in ("ref", "deref") and len(d) > 1:
+            d = d[1]
+            n += 1
+            continue
+        return None
+    return None
+
+
 def _describe_place(prog, body, pl, depth, seen):
     l = pl["l"]
     projs = [e for e in pl["p"] if e[0] in ("f", "i", "ci")]
@@ -1152,6 +1208,9 @@ def _describe_place(prog, body, pl, depth, seen):
                 base = base[1][idx]
             elif base[0] == "closure" and len(base) > 2 and idx < len(base[2]):
                 base = base[2][idx]       # captured value of a closure whose body was inlined (hv/inline.py)
+            elif base[0] == "call" and re.search(r"Pin::<Ptr>::new_unchecked$|IntoFuture>?::into_future$|Pin::<Ptr>::as_mut$|Pin::<Ptr>::new$", base[1]) and _pinned_closure(base) is not None \
+                    and idx < len(_pinned_closure(base)[2]):
+                base = _pinned_closure(base)[2][idx]      # captured value of an awaited async helper's future whose body was inlined
             elif idx == 0 and base[0] == "call" and base[1].endswith("ops::Try>::branch") and len(base[2]) == 1 and _continue_payload(base[2][0]) is not None:
                 base = _continue_payload(base[2][0])   # `Ok(v)?` / `Some(v)?` of a value built in this body (an inlined helper's result): v
             else:
@@ -1317,8 +1376,17 @@ def _flag_defs(body, l):
             return None
         out[d[3]["rv"]["o"]["v"]].append(d[0])
     blocks = out[True] + out[False]
+    # (inside a loop every definition is followed by the next iteration's: what matters is that no other definition lies between a
+    # definition and the tests of the flag, so the walk stops at the blocks that branch on it)
+    users = set()
+    for bi in range(len(body.blocks)):
+        t = body.term(bi)
+        if t and t["k"] == "switch" and t.get("discr_ty") == "bool":
+            dl = op_local(t["discr"])
+            if dl == l or (dl is not None and _flag_root(body, dl)[0] == l):
+                users.add(bi)
     for x in blocks:
-        seen = body.reachable(body.succs(x))
+        seen = body.reachable(body.succs(x), removed_nodes=users) if users else body.reachable(body.succs(x))
         if any(y in seen for y in blocks):
             return None
     return out
